@@ -7,6 +7,7 @@ import (
 	"fmt"
 	"os"
 	"path/filepath"
+	"sync"
 )
 
 // runCanaries: for postcondition groups that were discharged by a solver, "pc and post" must be
@@ -15,6 +16,12 @@ import (
 func (v *Verifier) runCanaries(results []*FuncResult, dir string, perFunc int) (map[string]int, string) {
 	os.MkdirAll(dir, 0o755)
 	stats := map[string]int{"checked": 0, "feasible": 0, "inconclusive": 0}
+	type job struct {
+		g     *Group
+		files []string
+		verdict string
+	}
+	var jobs []*job
 	for _, r := range results {
 		groups := groupObls(r.Obls)
 		n := 0
@@ -26,31 +33,53 @@ func (v *Verifier) runCanaries(results []*FuncResult, dir string, perFunc int) (
 				break
 			}
 			n++
-			stats["checked"]++
-			verdict := "unsat"
-			for _, o := range g.Instances {
-				q := &Query{Name: "canary:" + o.Name, Assumes: o.Assumes, Goal: Not(o.Goal)}
+			j := &job{g: g}
+			for k, o := range g.Instances {
+				if k >= 6 {
+					break
+				}
+				ia, ig, _ := instantiate(o.Assumes, Not(o.Goal))
+				q := &Query{Name: "canary:" + o.Name, Assumes: ia, Goal: ig}
 				text := q.SMTText(false)
 				h := sha1.Sum([]byte(text))
 				file := filepath.Join(dir, fmt.Sprintf("%x.smt2", h[:8]))
 				os.WriteFile(file, []byte(text), 0o644)
-				res, _ := race(file, 5, false)
+				j.files = append(j.files, file)
+			}
+			jobs = append(jobs, j)
+		}
+	}
+	var wg sync.WaitGroup
+	sem := make(chan struct{}, 6)
+	for _, j := range jobs {
+		wg.Add(1)
+		sem <- struct{}{}
+		go func(j *job) {
+			defer wg.Done()
+			defer func() { <-sem }()
+			j.verdict = "unsat"
+			for _, f := range j.files {
+				res, _ := race(f, 3, false)
 				if res.Answer == "sat" {
-					verdict = "sat"
-					break
+					j.verdict = "sat"
+					return
 				}
 				if res.Answer == "unknown" {
-					verdict = "unknown"
+					j.verdict = "unknown"
 				}
 			}
-			switch verdict {
-			case "sat":
-				stats["feasible"]++
-			case "unknown":
-				stats["inconclusive"]++
-			default:
-				return stats, g.Name + ": no path reaches this postcondition with a satisfiable path condition"
-			}
+		}(j)
+	}
+	wg.Wait()
+	for _, j := range jobs {
+		stats["checked"]++
+		switch j.verdict {
+		case "sat":
+			stats["feasible"]++
+		case "unknown":
+			stats["inconclusive"]++
+		default:
+			return stats, j.g.Name + ": no path reaches this postcondition with a satisfiable path condition"
 		}
 	}
 	return stats, ""
